@@ -41,6 +41,7 @@ DEVIATIONS = {
     "mid_forwards_before_apply": ("chain", "AckAll"),
     "conflict_keeps_existing": ("ml", "ConvergeAE"),
     "ae_one_way": ("ml", "ConvergeAE"),
+    "replica_writes_unordered": ("rs", "Converge"),
 }
 # known-finding key -> deviation of the impl model that is the code's behaviour
 KEY_DEV = {
@@ -49,9 +50,9 @@ KEY_DEV = {
     "craq_dirty_mark_is_key_set": "dirty_is_key_set",
     "craq_dirty_check_before_get_latency": "craq_read_check_before_get",
 }
-MODULE = {"pb": "PrimaryBackupMC.tla", "chain": "ChainMC.tla", "ml": "MultiLeaderMC.tla"}
+MODULE = {"pb": "PrimaryBackupMC.tla", "chain": "ChainMC.tla", "ml": "MultiLeaderMC.tla", "rs": "QuorumMC.tla"}
 INVS = {"pb": ["AckSync", "AckSemi", "Converge"], "chain": ["AckAll", "ReadCommitted", "Converge"],
-        "ml": ["ConvergeAE"]}
+        "ml": ["ConvergeAE"], "rs": ["Converge"]}
 
 
 def as_code_dev():
@@ -71,6 +72,8 @@ def consts(model, dev=(), **kw):
     elif model == "chain":
         c = {"N": kw.get("n", 3), "NK": kw.get("nk", 1), "MaxW": kw.get("maxw", 2), "MaxR": kw.get("maxr", 1),
              "CraqSet": "{" + ",".join("TRUE" if x else "FALSE" for x in kw.get("craq", (True,))) + "}"}
+    elif model == "rs":
+        c = {"N": kw.get("n", 3), "NK": kw.get("nk", 1), "MaxW": kw.get("maxw", 3)}
     else:
         c = {"N": kw.get("n", 2), "NK": kw.get("nk", 1), "MaxW": kw.get("maxw", 2), "MaxAE": kw.get("maxae", 1),
              "BurstOnly": "TRUE" if kw.get("burst") else "FALSE"}
@@ -95,6 +98,7 @@ def mc_jobs(tier):
         job("chain 2 nodes craq 2 keys 2 writes 2 reads", "chain", dict(n=2, nk=2, maxw=2, maxr=2, craq=(True,)))
         job("ml 2 leaders 3 writes", "ml", dict(n=2, nk=1, maxw=3, maxae=1))
         job("ml 3 leaders 2 writes", "ml", dict(n=3, nk=1, maxw=2, maxae=3))
+        job("replicated store 3 replicas 2 keys 3 puts", "rs", dict(n=3, nk=2, maxw=3))
     else:
         job("pb 2 backups 2 keys 3 writes", "pb", dict(nb=2, nk=2, maxw=3))
         job("pb 3 backups 1 key 3 writes", "pb", dict(nb=3, nk=1, maxw=3))
@@ -106,9 +110,10 @@ def mc_jobs(tier):
         job("ml 2 leaders 2 keys 4 writes", "ml", dict(n=2, nk=2, maxw=4, maxae=1))
         job("ml 3 leaders 3 writes", "ml", dict(n=3, nk=1, maxw=3, maxae=3))
         job("ml 3 leaders 2 keys 2 writes", "ml", dict(n=3, nk=2, maxw=2, maxae=3))
+        job("replicated store 4 replicas 2 keys 4 puts", "rs", dict(n=4, nk=2, maxw=4))
     for dev, (model, inv) in DEVIATIONS.items():
         kw = {"pb": dict(nb=2, nk=1, maxw=2), "chain": dict(n=3, nk=1, maxw=2, maxr=1, craq=(True,)),
-              "ml": dict(n=2, nk=1, maxw=2, maxae=1)}[model]
+              "ml": dict(n=2, nk=1, maxw=2, maxae=1), "rs": dict(n=2, nk=1, maxw=2)}[model]
         job(f"sensitivity {dev}", model, kw, dev=[dev], expect=inv, count=False)
     job("witness: multi-leader without anti-entropy", "ml", dict(n=2, nk=1, maxw=2, maxae=0),
         expect="WitnessNoAE", count=False, invs=["WitnessNoAE"])
@@ -127,6 +132,7 @@ def replay_jobs(tier, code_dev):
         job("graph pb", "pb", dict(nb=2, nk=1, maxw=2))
         job("graph chain craq", "chain", dict(n=3, nk=1, maxw=2, maxr=1, craq=(True,)))
         job("graph ml", "ml", dict(n=2, nk=1, maxw=2, maxae=1, burst=True))
+        job("graph replicated store", "rs", dict(n=3, nk=1, maxw=2))
     else:
         job("graph pb", "pb", dict(nb=2, nk=2, maxw=2))
         job("graph pb 3w", "pb", dict(nb=2, nk=1, maxw=3, modes=("sync",)))
@@ -134,6 +140,7 @@ def replay_jobs(tier, code_dev):
         job("graph chain 2 nodes", "chain", dict(n=2, nk=2, maxw=2, maxr=2, craq=(True,)))
         job("graph ml", "ml", dict(n=2, nk=1, maxw=3, maxae=1, burst=True))
         job("graph ml 3", "ml", dict(n=3, nk=1, maxw=2, maxae=3, burst=True))
+        job("graph replicated store", "rs", dict(n=3, nk=2, maxw=3))
     return jobs
 
 
@@ -172,9 +179,13 @@ class Path:
             for b, q in enumerate(s["bq"], start=1):
                 d[b + 1] = q
             return d
+        if self.model == "rs":
+            return {i: tuple(o for o, p in enumerate(s["pos"], start=1) if p == i) for i in range(1, s["n"] + 1)}
         return {i: q for i, q in enumerate(s["q"], start=1)}
 
     def msgs(self, s):
+        if self.model == "rs":
+            return set()
         if self.model == "pb":
             return {("repl", b + 1, w) for (b, w) in s["msgs"]}
         if self.model == "chain":
@@ -243,7 +254,7 @@ def schedule(path: Path):
         prev_was_write = name == "Write"
         # client operations
         if name == "Write":
-            ops.append([t, "w", args[0] if ml else 1, args[1] if ml else args[0]])
+            ops.append([t, "w", args[0] if ml else n + 1 if model == "rs" else 1, args[1] if ml else args[0]])
         elif name == "Read":
             ops.append([t, "r", args[0], args[1]])
         elif name == "AE":
@@ -302,6 +313,8 @@ def model_projection(model, s):
         return {"snap": [list(x) for x in s["st"]], "acked": sorted(s["acked"]),
                 "dirty": [sorted({d[0] for d in ds}) for ds in s["dirty"]],
                 "reads": {r: _rec(x)["v"] for r, x in enumerate(s["rd"], start=1) if _rec(x)["ph"] == "done"}}
+    if model == "rs":
+        return {"snap": [list(x) for x in s["st"]], "acked": sorted(s["acked"])}
     return {"snap": [list(x) for x in s["ver"]], "acked": sorted(s["acked"]), "ver": [list(x) for x in s["ver"]]}
 
 
@@ -425,6 +438,15 @@ def random_chain(rng):
             "base_r": [rng.choice(STORE) for _ in range(n)]}
 
 
+def random_rs(rng):
+    n = rng.choice((2, 3, 3, 4, 5))
+    nk = rng.choice((1, 1, 2, 3))
+    m = rng.randint(2, 7)
+    ops = [[t, "w", n + 1, rng.randint(1, nk)] for t in _write_times(rng, m)]
+    return {"proto": "rs", "n": n, "nk": nk, "ops": ops, "level": rng.choice(("one", "quorum", "all")),
+            "base_w": [rng.choice(STORE) for _ in range(n)], "base_r": 0.001}
+
+
 def _sweep(n, t0, gap, twice=False, rearm=None):
     """Sequential forced anti-entropy exchanges covering every pair, after t0.  rearm = the leaders' periodic
     interval when it is short: a forced round re-arms the initiator's periodic daemon, which is retired again
@@ -474,7 +496,7 @@ def random_ml(rng, wild=False):
 # ---------------------------------------------------------------------------
 # 4. classification of a failing execution (key computed from what fails)
 
-def classify(world, trace, verdict, pos, cverdict):
+def classify(world, trace, verdict, pos, cverdict, cpos=0):
     clause = verdict[5:]
     log = world.log
     proto = world.proto
@@ -527,7 +549,7 @@ def classify(world, trace, verdict, pos, cverdict):
                        f"the get latency and returned before the tail had it")
             else:
                 key = clause + ":unclassified"
-    if key in KEY_DEV and cverdict != "OK":
+    if key in KEY_DEV and cverdict != "OK" and cpos <= pos:      # drift after the failing event is irrelevant
         key = f"{key}:not_reproduced_by_model({cverdict})"
     return key, why
 
@@ -543,13 +565,71 @@ def run(tier, seed, replay=None):
     if replay:
         return run_replay(chk, replay, code_dev)
 
+    import time as _time
     quick = tier == "quick"
-    par = 4
+    par = 5
     workers = max(2, tlc.DEFAULT_WORKERS // par)
 
-    # ---- 1. model checking (+ state graphs for the replays), TLC runs in parallel
+    # ---- 1. model checking (+ state graphs for the replays): TLC runs in parallel, in the background
     jobs = mc_jobs(tier) + replay_jobs(tier, code_dev)
-    results = run_jobs(jobs, par, workers)
+    pool = ThreadPoolExecutor(max_workers=par)
+    futs = [pool.submit(run_job, j, i, workers if j["count"] or j["dot"] else 2) for i, j in enumerate(jobs)]
+
+    # ---- 2./3. executions of the real code
+    traces, meta, nexec = [], {}, [0]
+
+    def execute(sc, origin, conf=True):
+        nexec[0] += 1
+        tid = nexec[0]
+        w, tr, err, notes = W.execute(sc, tid, conf)
+        traces.append(tr)
+        meta[tid] = {"origin": origin, "scenario": sc}
+        chk.impl_steps += len(tr["ev"])
+        if err:
+            chk.violation(f"exception:{err.split(':')[0]}", f"real code raised {err}", {"scenario": sc})
+        for nt in notes:
+            chk.note_drift(f"trace {tid} ({origin}): {nt}")
+        return tid, w
+
+    batch = 10 ** 9 if quick else 5000
+    state = {"n": 0}
+
+    def flush(force=False):
+        """Validate the accumulated executions (thorough tier: in batches, to bound memory)."""
+        if traces and (force or len(traces) >= batch):
+            if not chk.samples:
+                sample_evidence(chk, traces, meta)
+            judge(chk, traces, meta, code_dev)
+            state["n"] += len(traces)
+            for tr in traces:
+                meta.pop(tr["id"], None)
+            traces.clear()
+
+    # 3. random / adversarial drivers (while TLC is running)
+    n_rand = {"pb": 500, "chain": 600, "ml": 350, "mlwild": 150, "rs": 200} if quick else \
+             {"pb": 5000, "chain": 7000, "ml": 4000, "mlwild": 1500, "rs": 1500}
+    for _ in range(n_rand["pb"]):
+        execute(random_pb(rng), "random:pb")
+        flush()
+    for _ in range(n_rand["chain"]):
+        execute(random_chain(rng), "random:chain")
+        flush()
+    for _ in range(n_rand["ml"]):
+        execute(random_ml(rng), "random:ml")
+        flush()
+    for _ in range(n_rand["rs"]):
+        execute(random_rs(rng), "random:rs")
+        flush()
+    for _ in range(n_rand["mlwild"]):
+        execute(random_ml(rng, wild=True), "random:ml_periodic_anti_entropy", conf=False)
+        flush()
+    t_rand = _time.time() - chk.t0
+
+    # ---- 1. (continued) collect the TLC results
+    try:
+        results = [f.result() for f in futs]
+    finally:
+        pool.shutdown(wait=False, cancel_futures=True)
     graphs = []
     cex = []
     for j, (res, wd) in zip(jobs, results):
@@ -572,26 +652,10 @@ def run(tier, seed, replay=None):
     chk.exhaustive = True      # the Dev={} TLC runs are complete for their constants (listed in tlc_runs)
     chk.extra["exhaustive_configs"] = [{"model": j["model"], "constants": consts(j["model"], j["dev"], **j["kw"])}
                                        for j in jobs if j["count"]]
-    import time as _time
     t_mc = _time.time() - chk.t0
 
-    # ---- 2./3. executions of the real code
-    traces, meta = [], {}
-
-    def execute(sc, origin, conf=True):
-        tid = len(traces) + 1
-        w, tr, err, notes = W.execute(sc, tid, conf)
-        traces.append(tr)
-        meta[tid] = {"origin": origin, "scenario": sc}
-        chk.impl_steps += len(tr["ev"])
-        if err:
-            chk.violation(f"exception:{err.split(':')[0]}", f"real code raised {err}", {"scenario": sc})
-        for nt in notes:
-            chk.note_drift(f"trace {tid} ({origin}): {nt}")
-        return tid, w
-
     # 2a. every edge of the state graphs
-    cap = 400 if quick else None
+    cap = 400 if quick else 6000
     for j, wd in graphs:
         paths, total, nn, ne = paths_from_graph(j["model"], wd, rng, cap)
         chk.extra.setdefault("replay_graphs", []).append(
@@ -604,6 +668,7 @@ def run(tier, seed, replay=None):
             chk.extra["replay_instants_state_checked"] = chk.extra.get("replay_instants_state_checked", 0) + nchk
             if diff:
                 chk.note_drift(f"replay {tid}: {diff}")
+            flush()
     # 2b. TLC counterexamples of the deviations that are open findings
     for j, res in cex:
         p = path_from_trace(j["model"], res.trace)
@@ -611,23 +676,13 @@ def run(tier, seed, replay=None):
         execute(sc, f"counterexample:{j['dev'][0]}")
         chk.replays += 1
 
-    # 3. random / adversarial drivers
-    n_rand = {"pb": 500, "chain": 600, "ml": 350, "mlwild": 150} if quick else \
-             {"pb": 9000, "chain": 12000, "ml": 6000, "mlwild": 3000}
-    for _ in range(n_rand["pb"]):
-        execute(random_pb(rng), "random:pb")
-    for _ in range(n_rand["chain"]):
-        execute(random_chain(rng), "random:chain")
-    for _ in range(n_rand["ml"]):
-        execute(random_ml(rng), "random:ml")
-    for _ in range(n_rand["mlwild"]):
-        execute(random_ml(rng, wild=True), "random:ml_periodic_anti_entropy", conf=False)
-
-    t_exec = _time.time() - chk.t0 - t_mc
-    judge(chk, traces, meta, code_dev)
-    chk.extra["phase_wall_s"] = {"tlc_model_checking": round(t_mc, 1), "real_code_executions": round(t_exec, 1),
-                                 "trace_validation_and_classification": round(_time.time() - chk.t0 - t_mc - t_exec, 1)}
-    finish_evidence(chk, traces, meta, code_dev)
+    t_exec = _time.time() - chk.t0
+    flush(force=True)
+    chk.extra["phase_wall_s"] = {"random_drivers (overlapping TLC)": round(t_rand, 1),
+                                 "tlc_model_checking_done_at": round(t_mc, 1),
+                                 "graph_replays_done_at": round(t_exec, 1),
+                                 "trace_validation_and_classification": round(_time.time() - chk.t0 - t_exec, 1)}
+    finish_evidence(chk, code_dev)
     return chk.finish()
 
 
@@ -653,8 +708,8 @@ def judge(chk, traces, meta, code_dev):
         for v in r.printed:
             if isinstance(v, tuple) and len(v) >= 4 and v[0] == "C":
                 conf[v[1]] = (v[2], v[3])
-    chk.impl_traces = len(traces)
-    stats = {}
+    chk.impl_traces += len(traces)
+    stats = chk.extra.setdefault("trace_stats", {})
     for tr in traces:
         tid = tr["id"]
         verdict, pos = verdicts[tid]
@@ -666,23 +721,28 @@ def judge(chk, traces, meta, code_dev):
             continue
         if verdict.startswith("PROP:"):
             st["prop"] += 1
-            cv = conf.get(tid, ("?", 0))[0]
+            cv, cpos = conf.get(tid, ("?", 0))
             world, _, _, _ = W.execute(meta[tid]["scenario"], tid, tr["conf"])     # deterministic re-execution
-            key, why = classify(world, tr, verdict, pos, cv)
+            key, why = classify(world, tr, verdict, pos, cv, cpos)
             desc = f"{verdict[5:]} at event {pos} of a {tr['proto']} execution ({origin})" + (f": {why}" if why else "")
             chk.violation(key, desc, {"scenario": meta[tid]["scenario"], "origin": origin, "verdict": verdict,
                                       "pos": pos, "conf": tr["conf"]})
         else:
             st["drift"] += 1
             chk.note_drift(f"trace {tid} ({origin}): {verdict} at event {pos}")
-    chk.extra["trace_stats"] = stats
     return verdicts, conf
 
 
-def finish_evidence(chk, traces, meta, code_dev):
-    for tr in traces[:1] + traces[-1:]:
-        chk.sample({"origin": meta[tr["id"]]["origin"], "scenario": meta[tr["id"]]["scenario"],
-                    "events": tr["ev"][:12]})
+def sample_evidence(chk, traces, meta):
+    seen = set()
+    for tr in traces:
+        if tr["proto"] not in seen:
+            seen.add(tr["proto"])
+            chk.sample({"origin": meta[tr["id"]]["origin"], "scenario": meta[tr["id"]]["scenario"],
+                        "events": tr["ev"][:10]})
+
+
+def finish_evidence(chk, code_dev):
     chk.extra["code_as_it_is_deviations"] = code_dev
     chk.assumptions = [
         "puts of one store end in the order they started (constant latency per store; the replays script "
